@@ -423,7 +423,7 @@ def check(prog, run):
             k8 += " #%d" % seen[k8] if seen[k8] > 1 else ""
             run.check(not divs, "R8", k8, "no integer division inside the accumulated term",
                       "in %s the field `%s` is advanced by a term containing the truncating integer division `%s`: the remainder is dropped at every call and never paid back, so `%s` drifts away from the exact value" % (_kname(p), fld, sym.show(divs[0])[:80] if divs else "", fld), mir.loc_of(node))
-    run.floor("R8", n8, 4, "accumulating stores into receiver state")
+    run.floor("R8", n8, 8, "accumulating stores into receiver state")
     # R6 (b): clipped values serialised by to_be_bytes / stored into sample records; (c) integer try_from whose failure is swallowed
     structs, fields = sample_record_fields(u)
     for p in sorted(reach):
